@@ -1474,14 +1474,16 @@ package scipipe
 //@   ensures every-task-forwarded[C04,C05]: forall o string :: o in p.PathFuncs && !streamPort(p, o) ==> outN[p.outPorts[o]] == old(outN)[p.outPorts[o]] + chanTotal(curTasks[p])
 //@   ensures one-execute-per-task[C04]: execSpawned == old(execSpawned) + chanTotal(curTasks[p])
 
-//@ define wfOutPortsToClose(p *BaseProcess) bool = p.outPorts != nil && (forall o1 string, o2 string :: o1 in p.outPorts && o2 in p.outPorts && o1 != o2 ==> p.outPorts[o1] != p.outPorts[o2] && p.outPorts[o1].RemotePorts != p.outPorts[o2].RemotePorts) && (forall o string :: o in p.outPorts ==> p.outPorts[o] != nil && wfOutPort(p.outPorts[o]) && wfPortKeys(p.outPorts[o]) && p.outPorts[o].process != nil && (forall r string :: r in p.outPorts[o].RemotePorts ==> p.outPorts[o].RemotePorts[r].RemotePorts != nil))
+//@ define wfOutPortsToClose(p *BaseProcess) bool = p.outPorts != nil && (forall o1 string, o2 string :: o1 in p.outPorts && o2 in p.outPorts && o1 != o2 ==> p.outPorts[o1] != p.outPorts[o2] && p.outPorts[o1].RemotePorts != p.outPorts[o2].RemotePorts) && (forall o string :: o in p.outPorts ==> p.outPorts[o] != nil && wfOutPort(p.outPorts[o]) && wfPortKeys(p.outPorts[o]) && p.outPorts[o].process != nil && (forall r string :: r in p.outPorts[o].RemotePorts ==> p.outPorts[o].RemotePorts[r].RemotePorts != nil && p.outPorts[o].RemotePorts[r].RemotePorts != p.outPorts))
 //@ func (*BaseProcess).CloseOutPorts(p)
 //@   props C04 C05
 //@   requires wf: wfOutPortsToClose(p)
 //@   modifies map[string]*InPort, map[string]*OutPort, chanclose, locked, closeCalls
 //@   ensures nothing-sent: outN == old(outN) && outAt == old(outAt)
 //@   ensures all-closed[C05]: forall o string, r string :: o in p.outPorts ==> !(r in p.outPorts[o].RemotePorts)
+//@   ensures own-ports-kept: forall o string :: ((o in p.outPorts) <==> old(o in p.outPorts)) && p.outPorts[o] == old(p.outPorts[o])
+//@   loop 0 invariant own-ports-kept: forall o string :: ((o in p.outPorts) <==> old(o in p.outPorts)) && p.outPorts[o] == old(p.outPorts[o])
 //@   loop 0 invariant vis: forall o string :: $visited[o] ==> o in p.outPorts
 //@   loop 0 invariant closed: forall o string, r string :: $visited[o] ==> !(r in p.outPorts[o].RemotePorts)
-//@   loop 0 invariant rest-wf: forall o string :: o in p.outPorts && !$visited[o] ==> p.outPorts[o] != nil && wfOutPort(p.outPorts[o]) && wfPortKeys(p.outPorts[o]) && p.outPorts[o].process != nil && (forall r string :: r in p.outPorts[o].RemotePorts ==> p.outPorts[o].RemotePorts[r].RemotePorts != nil)
+//@   loop 0 invariant rest-wf: forall o string :: o in p.outPorts && !$visited[o] ==> p.outPorts[o] != nil && wfOutPort(p.outPorts[o]) && wfPortKeys(p.outPorts[o]) && p.outPorts[o].process != nil && (forall r string :: r in p.outPorts[o].RemotePorts ==> p.outPorts[o].RemotePorts[r].RemotePorts != nil && p.outPorts[o].RemotePorts[r].RemotePorts != p.outPorts)
 //@   loop 0 invariant distinct: forall o1 string, o2 string :: o1 in p.outPorts && o2 in p.outPorts && o1 != o2 ==> p.outPorts[o1] != p.outPorts[o2] && p.outPorts[o1].RemotePorts != p.outPorts[o2].RemotePorts
